@@ -1336,9 +1336,9 @@ def run_grid(desc, ctx):
 
 
 SUBS = [
-    Sub("dijkstra_astar", run_weighted, strategy=lambda tier: weighted_cases(tier), quick=800, thorough=1500, workers_quick=3, case_timeout=20.0, wall_thorough=300.0),
-    Sub("bfs_dfs", run_unweighted, strategy=lambda tier: unweighted_cases(tier), quick=500, thorough=1000, workers_quick=3, case_timeout=20.0, wall_thorough=300.0),
-    Sub("bellman_ford", run_bf, strategy=lambda tier: bf_cases(tier), quick=600, thorough=1200, workers_quick=3, case_timeout=20.0, wall_thorough=300.0),
-    Sub("floyd_warshall", run_fw, strategy=lambda tier: fw_cases(tier), quick=450, thorough=900, workers_quick=3, case_timeout=20.0, wall_thorough=300.0),
-    Sub("astar_grid", run_grid, strategy=lambda tier: grid_cases(tier), quick=600, thorough=1500, workers_quick=4, case_timeout=20.0, wall_thorough=300.0),
+    Sub("dijkstra_astar", run_weighted, strategy=lambda tier: weighted_cases(tier), quick=1600, thorough=1500, workers_quick=6, case_timeout=20.0, wall_thorough=300.0),
+    Sub("bfs_dfs", run_unweighted, strategy=lambda tier: unweighted_cases(tier), quick=1000, thorough=1000, workers_quick=6, case_timeout=20.0, wall_thorough=300.0),
+    Sub("bellman_ford", run_bf, strategy=lambda tier: bf_cases(tier), quick=1200, thorough=1200, workers_quick=6, case_timeout=20.0, wall_thorough=300.0),
+    Sub("floyd_warshall", run_fw, strategy=lambda tier: fw_cases(tier), quick=900, thorough=900, workers_quick=6, case_timeout=20.0, wall_thorough=300.0),
+    Sub("astar_grid", run_grid, strategy=lambda tier: grid_cases(tier), quick=1200, thorough=1500, workers_quick=8, case_timeout=20.0, wall_thorough=300.0),
 ]
